@@ -745,7 +745,7 @@ class Encoding:
         self.build_s = time.time() - t0
 
     # ---------------- partial-order reduction (peephole form)
-    def por(self):
+    def por(self, glued=frozenset()):
         """Constraints that keep, of every class of schedules differing only in the order of *adjacent independent* steps of
         different threads, the representatives without an inversion: a step of thread a directly followed by an independent
         step of a thread b < a is excluded.  Two steps are independent when neither writes a variable the other reads or writes
@@ -753,10 +753,14 @@ class Encoding:
         globals, uncaught/closed markers: their write order - hence every intermediate valuation the bad conditions look at -
         is the same in all equivalent schedules).  Timeout steps (enabled only when no other step is) and the fixed leading
         'thread begins' steps are never reordered.  Every reachable final state, and every sequence of observed valuations,
-        keeps a representative (sort by adjacent swaps), so sat/unsat of the queries is unchanged.  Not to be combined with the
-        replay disciplines (those sets of schedules are not closed under the swaps)."""
-        if getattr(self, "_por", None) is not None:
-            return self._por
+        keeps a representative (sort by adjacent swaps), so sat/unsat of the queries is unchanged.
+        With a replay discipline ("the steps in `glued` directly follow their thread's previous step") only swaps that keep every
+        glued pair together are used: the inversion (a at i, b at i+1) is excluded only if the step at i is not glued to its
+        predecessor and the step at i+2 is not glued to the one at i+1; the disciplined schedules are closed under these swaps."""
+        glued = frozenset(glued)
+        cache = self.__dict__.setdefault("_por_cache", {})
+        if glued in cache:
+            return cache[glued]
         ts = self.ts
         rw = {}
         for e in ts.edges:
@@ -798,12 +802,16 @@ class Encoding:
                 table[id(e1)] = per
         cons = []
         pairs = 0
-        for i in range(self.nbegin, self.K - 1):
+        # (under a discipline the opening step has rules of its own - the set-up thread continues first - and is left alone)
+        for i in range(max(self.nbegin, 1) if glued else self.nbegin, self.K - 1):
             f0 = {id(e): f for e, f in self.fired[i]}
             f1 = {id(e): f for e, f in self.fired[i + 1]}
+            nxt_glued = z3.BoolVal(False)
+            if glued and i + 2 < self.K:
+                nxt_glued = z3.Or([f for e, f in self.fired[i + 2] if id(e) in glued] or [z3.BoolVal(False)])
             for e1 in ts.edges:
                 per = table.get(id(e1))
-                if not per:
+                if not per or id(e1) in glued:
                     continue
                 alts = []
                 for b, ind in per.items():
@@ -812,8 +820,11 @@ class Encoding:
                     else:
                         alts += [f1[id(e2)] for e2 in ind]
                     pairs += 1
-                cons.append(z3.Not(z3.And(f0[id(e1)], z3.Or(alts))))
-        self._por = cons
+                if glued:
+                    cons.append(z3.Not(z3.And(f0[id(e1)], z3.Or(alts), z3.Not(nxt_glued))))
+                else:
+                    cons.append(z3.Not(z3.And(f0[id(e1)], z3.Or(alts))))
+        cache[glued] = cons
         self.por_pairs = sum(len(v) for v in table.values())
         return cons
 
